@@ -15,6 +15,7 @@
  * (per row) for spec/Trace_Prog.tla.
  */
 #include "hcommon.h"
+#include "hcgen.h"
 
 #define BUF (1 << 16)
 static orc_uint8 mem[8][BUF];
@@ -135,7 +136,8 @@ static void
 do_line (const char *path, char *line)
 {
   char tpl[16], o1[24], o2[24], o3[24];
-  int w, mult, i, native = strcmp (path, "emu") != 0, res, round;
+  int w, mult, i, native = strcmp (path, "emu") != 0 && !hc_mode, res, round;
+  HCFn cfn = NULL;
   unsigned long seed;
   Desc d;
   OrcProgram *p;
@@ -145,6 +147,7 @@ do_line (const char *path, char *line)
   static const int ns[] = { 1, 2, 3, 5, 7, 8, 15, 16, 17, 31, 33, 63, 64, 65, 100, 6, 10, 4 };
   if (sscanf (line, "%15s %d %23s %23s %23s %d %lu", tpl, &w, o1, o2, o3, &mult, &seed) < 7) return;
   if (!describe (&d, tpl, w, o1, o2, o3, mult)) return;
+  hc_begin_line (line);
   r.s = seed * 0x9e3779b97f4a7c15ULL + fnv1a (line, strlen (line));
   d.cval = pick (&r, w);
   d.two_d = (int) (seed & 1);
@@ -156,12 +159,18 @@ do_line (const char *path, char *line)
     if (op->flags & ORC_STATIC_OPCODE_SCALAR) d.cval %= 8 * w;
   }
   p = build (&d);
+  if (hc_mode == 'g') { hc_emit (p); orc_program_free (p); return; }
+  if (hc_mode == 'r') {
+    cfn = hc_next ();
+    if (!cfn) { HEMIT ("\"e\":\"NoCode\",\"plan\":\"%.80s\",\"path\":\"%s\",\"res\":%d", tpl, path, -1); orc_program_free (p); return; }
+    res = 0;
+  } else
   res = orc_program_compile_for_target (p, t);
   if (native && !ORC_COMPILE_RESULT_IS_SUCCESSFUL (res)) {
     HEMIT ("\"e\":\"NoCode\",\"plan\":\"%.80s\",\"path\":\"%s\",\"res\":%d", tpl, path, res);
     orc_program_free (p); return;
   }
-  if (!native && (ORC_COMPILE_RESULT_IS_FATAL (res) || !p->orccode)) { orc_program_free (p); return; }
+  if (!native && !cfn && (ORC_COMPILE_RESULT_IS_FATAL (res) || !p->orccode)) { orc_program_free (p); return; }
   memset (&ex, 0, sizeof (ex));
   orc_executor_set_program (&ex, p);
   for (round = 0; round < 14; round++) {
@@ -203,7 +212,7 @@ do_line (const char *path, char *line)
     }
     ex.n = n;
     if (d.two_d) ORC_EXECUTOR_M (&ex) = m;
-    if (native) orc_executor_run (&ex); else orc_executor_emulate (&ex);
+    if (cfn) cfn (&ex); else if (native) orc_executor_run (&ex); else orc_executor_emulate (&ex);
     for (v = 0; v < d.n_vars; v++) {
       Var *va = &d.vars[v];
       if (va->kind == 'd') {
@@ -249,8 +258,9 @@ main (int argc, char **argv)
   if (argc < 3) { fprintf (stderr, "usage: h_prog <emu|avx|sse|mmx> <plan>\n"); return 2; }
   f = fopen (argv[2], "r");
   if (!f) { perror (argv[2]); return 2; }
-  HEMIT ("\"e\":\"Reset\"");
   orc_init ();
+  hc_init (argv[1]);
+  HEMIT ("\"e\":\"Reset\"");
   while (getline (&line, &cap, f) > 0) {
     pid_t pid; int st;
     fflush (NULL);
